@@ -13,17 +13,34 @@ Definition reject_eqb (a b : reject) : bool :=
    (k = 0: every quotient is exact in binary64, equality is required) *)
 Definition entry_close (k : Z) (p q : string * Qc) : bool :=
   String.eqb (fst p) (fst q) && qclose k 1 (snd p) (snd q).
+(* The property fixes WHICH cells come out and what each holds, not the position of a cell in the list nor the order
+   of the entries inside a cell (dictionary keys): cells are matched as a multiset (every observed cell removes the
+   first model cell equal to it), entries by module name. *)
+Definition alloc_close (k : Z) (a b : list (string * Qc)) : bool :=
+  Nat.eqb (List.length a) (List.length b) && forallb (fun p => existsb (entry_close k p) b) a.
 Definition cell_close (k : Z) (a b : cell) : bool :=
-  rect_eqb (crect a) (crect b) && list_eqb (entry_close k) (calloc a) (calloc b) &&
+  rect_eqb (crect a) (crect b) && alloc_close k (calloc a) (calloc b) &&
   Nat.eqb (cdepth a) (cdepth b).
+Fixpoint remove_first_cell (p : cell -> bool) (l : list cell) : option (list cell) :=
+  match l with
+  | [] => None
+  | y :: l' => if p y then Some l'
+               else match remove_first_cell p l' with Some r => Some (y :: r) | None => None end
+  end.
 Fixpoint cells_close (ks : list Z) (a b : list cell) : bool :=
-  match ks, a, b with
-  | [], [], [] => true
-  | k :: ks', x :: a', y :: b' => cell_close k x y && cells_close ks' a' b'
-  | _, _, _ => false
+  match ks, b with
+  | [], [] => match a with [] => true | _ => false end
+  | k :: ks', y :: b' =>
+      match remove_first_cell (fun x => cell_close k x y) a with
+      | Some a' => cells_close ks' a' b'
+      | None => false
+      end
+  | _, _ => false
   end.
 
 Definition agree_accept (ks : list Z) (r : result) (obs : list cell) : bool :=
   match r with Accept cs => cells_close ks cs obs | Reject _ => false end.
+(* a refusal is compared as a refusal: which assertion fired (and its wording) is not part of the property; the
+   class the harness recognised is kept as an argument for the statistics only *)
 Definition agree_reject (r : result) (why : reject) : bool :=
-  match r with Reject w => reject_eqb w why | Accept _ => false end.
+  match r with Reject _ => true | Accept _ => false end.
